@@ -188,12 +188,19 @@ def parseFunc (j : LJson) : Except String Func := do
 
 def parseTree (j : LJson) : Except String FS := do
   let nodes ← j.getArr?
+  -- like `os.makedirs`: ancestors of every node are directories
+  let withAncestors (fs : FS) (p : Path) : FS :=
+    (List.range p.length).foldl (fun fs k =>
+      let anc := p.take k
+      if anc = [] ∨ (fs.get anc).isSome then fs else fs.set anc .dir) fs
   nodes.toList.foldlM (init := ([] : FS)) fun fs n => do
     let a ← n.getArr?
     if h : a.size = 2 then
-      return fs.set (parsePath (← a[0].getStr?)) .dir
+      let p := parsePath (← a[0].getStr?)
+      return (withAncestors fs p).set p .dir
     else if h : a.size = 4 then
-      return fs.set (parsePath (← a[0].getStr?)) (.file (← a[2].getStr?) (← getNat a[3]))
+      let p := parsePath (← a[0].getStr?)
+      return (withAncestors fs p).set p (.file (← a[2].getStr?) (← getNat a[3]))
     else err "bad node"
 
 /-- tree snapshot: sorted list of [path,"dir"] | [path,"file",bytes,mtime] -/
@@ -207,7 +214,10 @@ def showTree (fs : FS) : LJson :=
 def showExc : Exc → LJson
   | .user t => Json.mkObj [("cls", "UserExc"), ("tok", .num (.fromNat t))]
   | .os e => Json.mkObj [("cls", .str e.name)]
-  | .runtime w => Json.mkObj [("cls", "RuntimeError"), ("why", .str (reprStr w))]
+  | .runtime w => Json.mkObj [("cls", "RuntimeError"), ("why", .str (match w with
+      | .dupFile => "dupFile" | .dupSub => "dupSub" | .cacheTarget => "cacheTarget"
+      | .notCreated => "notCreated" | .finished => "finished" | .nameMismatch => "nameMismatch"
+      | .corrupt => "corrupt"))]
   | .typeErr => Json.mkObj [("cls", "TypeError")]
   | .internal m => Json.mkObj [("cls", .str ("INTERNAL:" ++ m))]
 
@@ -218,5 +228,10 @@ def showRes : CallRes → LJson
 def showInv (i : Inv) : LJson :=
   .arr #[.str i.fname, (match i.target with | some p => .str (showPath p) | none => .null),
          showJson i.args, showJson i.kwargs]
+
+partial def showCall : CallNode → LJson
+  | .mk f t a k st ch =>
+    Json.mkObj [("f", .str f), ("t", match t with | some p => .str (showPath p) | none => .null),
+      ("a", showJson a), ("k", showJson k), ("st", .str st), ("ch", .arr (ch.map showCall).toArray)]
 
 end FB.Wire
